@@ -225,6 +225,9 @@ func parseMultiarch(input *input, possi *Possibility) error {
 		peek := input.Peek()
 		switch peek {
 		case ',', '|', 0, ' ', '\t', '\r', '\n', '(', '[', '<':
+			if name == "" {
+				return errors.New("Empty architecture qualifier after ':'")
+			}
 			arch, err := ParseArch(name)
 			if err != nil {
 				return err
